@@ -844,6 +844,11 @@ func (ds *AnySource) ConfigureProjectorsBases(channelIndex int, projectors *mat.
 		return fmt.Errorf("channelIndex out of range, channelIndex=%v, len(ds.processors)=%v", channelIndex, len(ds.processors))
 	}
 	dsp := ds.processors[channelIndex]
+	if dsp.DataPublisher.HasOFF() {
+		// The OFF file being written describes the current projectors and basis in its header, and its writer
+		// ends the server when a record arrives with another number of coefficients.
+		return fmt.Errorf("channel %d is writing an OFF file with its current projectors: stop writing before changing them", channelIndex)
+	}
 	return dsp.SetProjectorsBasis(projectors, basis, modelDescription)
 }
 
